@@ -118,7 +118,9 @@ func (t *TypeAliasType) IsAssignable(o px.Type, g px.Guard) bool {
 	if g.Seen(t, o) {
 		return true
 	}
-	return GuardedIsAssignable(t.ResolvedType(), o, g)
+	r := GuardedIsAssignable(t.ResolvedType(), o, g)
+	g.Done(t, o)
+	return r
 }
 
 func (t *TypeAliasType) IsInstance(o px.Value, g px.Guard) bool {
@@ -128,7 +130,9 @@ func (t *TypeAliasType) IsInstance(o px.Value, g px.Guard) bool {
 	if g.Seen(t, o) {
 		return true
 	}
-	return GuardedIsInstance(t.ResolvedType(), o, g)
+	r := GuardedIsInstance(t.ResolvedType(), o, g)
+	g.Done(t, o)
+	return r
 }
 
 func (t *TypeAliasType) MetaType() px.ObjectType {
